@@ -187,7 +187,10 @@ mod c05 {
         let src = format!("def f(a: int, b: int, x: float, y: float) -> None:\n{}\ndef main() -> None:\n    pass\n", stmt);
         let lname = if compound { format!("{l}2") } else { l.to_string() };
         let helper = match (op, float) { ("/", _) => "py_div", ("//", false) => "py_floor_div_i64", ("//", true) => "py_floor_div_f64", (_, false) => "py_mod_i64", (_, true) => "py_mod_f64" };
-        let want = vec![if float && !lf { format!("{}asf64", lname) } else { lname.clone() }, if float && !rf { format!("{}asf64", r) } else { r.to_string() }];
+        let want = vec![(lname.clone(), float && !lf), (r.to_string(), float && !rf)];
+        let arg_ok = |got: &str, (name, promoted): &(String, bool)| -> bool {
+            got.contains(name.as_str()) && ((got.contains("f64") || got.contains("into")) == *promoted)
+        };
         let got = guarded(|| {
             let tokens = incan::frontend::lexer::lex(&src).map_err(|e| format!("lex: {:?}", e.first().map(|x| x.message.clone())))?;
             let prog = incan::frontend::parser::parse(&tokens).map_err(|e| format!("parse: {:?}", e.first().map(|x| x.message.clone())))?;
@@ -201,8 +204,10 @@ mod c05 {
                 // the helper name must be followed by '(' (py_mod vs py_mod_i64)
                 let args = flat.match_indices(&full).filter(|(i, _)| flat[i + full.len()..].starts_with('(')).next()
                     .and_then(|(i, _)| call_args(&flat[i..], &full)).map(|a| a.iter().map(|x| norm(x)).collect::<Vec<_>>());
-                verdict(args.as_ref() == Some(&want), json!({"call_args": args, "num_calls": flat.matches("incan_stdlib::num::").count()}),
-                        json!({"helper": full, "args": want}), &echo, "generated call: documented helper for the table's kind, operands in source order, int operands of a float operation promoted")
+                let ok = matches!(&args, Some(a) if a.len() == 2 && arg_ok(&a[0], &want[0]) && arg_ok(&a[1], &want[1]));
+                verdict(ok, json!({"call_args": args, "num_calls": flat.matches("incan_stdlib::num::").count()}),
+                        json!({"helper": full, "args (operand, promoted to float?)": want.iter().map(|(n, p)| json!([n, p])).collect::<Vec<_>>()}), &echo,
+                        "generated call: documented helper for the table's kind, operands in source order, exactly the int operands of a float operation converted to float")
             }
             Ok(Err(m)) => verdict(false, json!({"front_end_error": m}), json!({"helper": helper}), &echo, "a well-typed division must compile"),
             Err(m) => verdict(false, json!({"panicked": m}), json!({"helper": helper}), &echo, "front end must not panic"),
@@ -262,7 +267,8 @@ mod c05 {
                 }
                 let Some(c) = cut else { return verdict(false, json!({"expr": expr}), json!("L op R"), &echo, "infix operator not found at top level"); };
                 let (le, re) = (expr[..c].trim(), expr[c + pat.len()..].trim());
-                let (lp, rp) = (le.ends_with("as f64"), re.ends_with("as f64"));
+                let conv = |e: &str| e.ends_with("as f64") || e.starts_with("f64::from") || e.ends_with(".into()") || e.starts_with("f64 :: from");
+                let (lp, rp) = (conv(le), conv(re));
                 let want = (float && !lfloat, float && !rf);
                 verdict((lp, rp) == want, json!({"expr": expr, "promoted": [lp, rp]}), json!({"promoted": [want.0, want.1]}), &echo,
                         "generated expression: exactly the int operands of a float operation are promoted")
@@ -320,16 +326,25 @@ mod c05 {
         });
         let helper = match (is_str, index_only) { (true, true) => "incan_stdlib::strings::str_index", (false, true) => "incan_stdlib::collections::list_get",
                                                   (true, false) => "incan_stdlib::strings::str_slice", (false, false) => "incan_stdlib::collections::list_slice" };
-        let want_arg = |b: &Option<String>| match b { None => "None".to_string(), Some(x) => format!("Some{}asi64", norm(x)) };
-        let expected: Vec<String> = if index_only { vec![format!("&{}", tname), format!("{}asi64", norm(&st.clone().unwrap_or("st".to_string())))] }
-                                    else { vec![format!("&{}", tname), want_arg(&st), want_arg(&en), want_arg(&sp)] };
+        // An argument is judged by meaning, not spelling: an omitted bound must be `None`; a written bound must be a
+        // `Some(..)` that mentions the written operand (any conversion spelling: `(x) as i64`, `i64::from(x)`, `x.into()`).
+        let bound_ok = |got: &str, want: &Option<String>| -> bool {
+            match want { None => got == "None", Some(x) => got.starts_with("Some") && got.contains(&norm(x)) }
+        };
+        let idx_ok = |got: &str, want: &str| -> bool { !got.starts_with("Some") && got != "None" && got.contains(&norm(want)) };
+        let expected: Vec<String> = if index_only { vec![format!("&{}", tname), format!("<index {}>", st.clone().unwrap_or("st".to_string()))] }
+                                    else { vec![format!("&{}", tname), format!("{:?}", st), format!("{:?}", en), format!("{:?}", sp)] };
         let args_echo = { let mut a = v.clone(); a["source"] = json!(src); a };
         match &got {
             Ok(Ok(code)) => {
                 let flat: String = code.split_whitespace().collect::<Vec<_>>().join(" ").replace(" :: ", "::");
                 let args = call_args(&flat, helper).map(|a| a.iter().map(|x| norm(x)).collect::<Vec<_>>());
-                let ok = args.as_ref() == Some(&expected);
-                verdict(ok, json!({"helper_call_args": args}), json!({"helper": helper, "args": expected}), &args_echo, "generated call: documented helper, written bounds in written positions")
+                let ok = match &args {
+                    Some(a) if index_only => a.len() == 2 && a[0].contains(tname) && idx_ok(&a[1], &st.clone().unwrap_or("st".to_string())),
+                    Some(a) => a.len() == 4 && a[0].contains(tname) && bound_ok(&a[1], &st) && bound_ok(&a[2], &en) && bound_ok(&a[3], &sp),
+                    None => false,
+                };
+                verdict(ok, json!({"helper_call_args": args}), json!({"helper": helper, "args (target, start, end, step)": expected}), &args_echo, "generated call: documented helper, every written bound in its position, None exactly for an omitted bound")
             }
             Ok(Err(m)) => {
                 let mut r = verdict(false, json!({"front_end_error": m}), json!({"helper": helper, "args": expected}), &args_echo, "a documented slice form must compile");
